@@ -4,7 +4,7 @@
 From Coq Require Import List Arith ZArith QArith Qcanon.
 From Coq Require Import extraction.ExtrOcamlBasic.
 Require Import PGM.Base.Alg PGM.Base.Sums PGM.Base.Qnn PGM.Base.PyList PGM.Base.PyFactor PGM.Model.Domain PGM.Model.Dataset PGM.Model.Factor PGM.Model.BP.
-Require Import PGM.Gen.Domain_gen PGM.Gen.BP_gen.
+Require Import PGM.Gen.Domain_gen PGM.Gen.BP_gen PGM.Gen.MpOrder_gen.
 Extraction Language OCaml.
 Extraction "model.ml"
   QcSR QnnSF Qc_of Qnn_of Qc_num Qc_den qv
@@ -12,4 +12,5 @@ Extraction "model.ml"
   DomainGen.init DomainGen.project DomainGen.marginalize DomainGen.axes DomainGen.transpose DomainGen.invert DomainGen.merge
   DomainGen.contains DomainGen.size DomainGen.sort DomainGen.canonical DomainGen.dunder_contains DomainGen.dunder_getitem
   DomainGen.dunder_len DomainGen.dunder_eq
-  BP_gen.belief_propagation BP_gen.mle.
+  BP_gen.belief_propagation BP_gen.mle
+  MpOrder_gen.mp_order_messages MpOrder_gen.mp_order_edges.
